@@ -615,3 +615,30 @@ def c13_multi_file_pointers(ka: List[int], kb: List[int], la: List[int], lb: Lis
     post: _ >= 0
     """
     return _multi_file(ka, kb, la, lb, swap)
+
+
+_B_NC = ('file A with 3 records over 2 transcripts in ANY order (a transcript may own two non-contiguous blocks), file B '
+         'with 1 record; any file order; every file indexed (.idx written by the real to_line, read by the real '
+         'load_index), byte lengths < 10000')
+
+
+@cond('C06', bounds=_B_NC, encodes=ENC_I + ['moPepGen.seqvar.VariantRecordPoolOnDisk.VariantRecordPoolOnDisk.load_index'],
+      codes=CODES_I, tokens=True, stubs=['as c13_index_scan', 'open / GVFMetadata.parse -> in-memory'], timeout=400)
+def c06_idx_noncontiguous(k0: int, k1: int, k2: int, kb: int, la: List[int], lb: List[int], swap: bool) -> int:
+    """
+    pre: len(la) == 4 and len(lb) == 2
+    pre: all(1 <= x < 10000 for x in la) and all(1 <= x < 10000 for x in lb)
+    post: _ >= 0
+    """
+    return _multi_file_idx([k0, k1, k2], [kb], la, lb, swap)
+
+
+@cond('C13', bounds=_B_NC, encodes=ENC_I + ['moPepGen.seqvar.VariantRecordPoolOnDisk.VariantRecordPoolOnDisk.load_index'],
+      codes=CODES_I, tokens=True, stubs=['as c13_index_scan', 'open / GVFMetadata.parse -> in-memory'], timeout=400)
+def c13_idx_noncontiguous(k0: int, k1: int, k2: int, kb: int, la: List[int], lb: List[int], swap: bool) -> int:
+    """
+    pre: len(la) == 4 and len(lb) == 2
+    pre: all(1 <= x < 10000 for x in la) and all(1 <= x < 10000 for x in lb)
+    post: _ >= 0
+    """
+    return _multi_file_idx([k0, k1, k2], [kb], la, lb, swap)
